@@ -96,7 +96,7 @@ CHECKS["C01"] = dict(
     text="Per scheme, a code-shaped Coq model of the comparison (parsing of the version text, shortcuts, loops) and a refinement theorem: on the shape every accepted version "
          "has, the comparison the code computes equals a lexicographic order on an explicit key (padded token lists for deb, components/letter/suffix-chain/revision for "
          "ebuild and alpine, a five-field key for legacy openssl, the string order for generic), which is a total preorder; all five laws of the property and the "
-         "order-independence of sorting are proved once for any total preorder. Schemes with a theorem: generic, legacy openssl, ebuild, alpine, deb, the semver family (semver, nginx, golang, composer) gem, rpm and alpm (within a pkgrel class) (listed in the evidence). "
+         "order-independence of sorting are proved once for any total preorder. Schemes with a theorem: generic, legacy openssl, ebuild, alpine, deb, the semver family (semver, nginx, golang, composer) gem, rpm, alpm (within a pkgrel class), openssl and pypi (listed in the evidence); maven is modelled and compared, its order is the listed finding. "
          "For every version class, modelled or not, the laws are also evaluated on the implementation over triples of near-equal versions (every ordered triple of sliding windows "
          "of the near-pair stream) and random triples, with the two excluded sub-domains filtered; modelled classes are additionally compared with their model (operators, key order, "
          "theorem domain).",
@@ -136,7 +136,7 @@ CHECKS["C18"] = dict(
          "strictly greater, and the caret / tilde / pessimistic bounds (the version, and its next_major resp. next_minor) satisfy lower < upper with the version inside. "
          "The model is compared with the four semver-family classes; gem (bump, release, ~>) and conan (upper_bound, bump at every numeric index) helpers are evaluated on the implementation.",
     ref="6 (C18)", technique="Coq proof (case analysis in the key order of the modelled semver library) + helper evaluation on near-pair pools",
-    note="PARTIAL in breadth: gem and conan helpers have no Coq model yet. semantic_version 2.8.5 is modelled (third party), tied by correspondence. The model follows the code after the fix: commits (successor class, gem ~> lower bound).")
+    note="PARTIAL in breadth: the conan helpers have no Coq model (the gem helpers are proved on canonical segment lists and tied by correspondence). semantic_version 2.8.5 is modelled (third party), tied by correspondence. The model follows the code after the fix: commits (successor class, gem ~> lower bound).")
 
 CHECKS["C15"] = dict(
     text="Theorems over the code-shaped model of the advisory converters (Native/Advisory.v) with every comparator table transcribed from /repo on each run: a finite check per table "
@@ -147,7 +147,7 @@ CHECKS["C15"] = dict(
          "list/string input, '||', brackets, detached comparators) must equal the range of the stated pairs and the range parsed from the equivalent vers text; the models of all "
          "converters are compared with the implementation on a generic scheme, malformed expressions included.",
     ref="6 (C15)", technique="Coq proof (finite table facts by computation, lifted to all version texts by a splitter lemma) + generated-expression evaluation and model correspondence",
-    note="Whole-expression theorems exist for GitHub; Snyk and GitLab expressions are modelled and checked by correspondence and direct evaluation (the clause-level splitter theorem covers their tables). Assumes C11 of the scheme.")
+    note="Whole-expression theorems exist for GitHub and for Snyk items of comma-separated clauses; the Snyk bracket form and GitLab expressions are modelled and checked by correspondence and direct evaluation (the clause-level splitter theorem covers their tables). Assumes C11 of the scheme.")
 
 CHECKS["C16"] = dict(
     text="Theorems: the model of the vers-text parser (remove_spaces, split, constraint parsing, validation, sort, VersionRange construction) is total and every error value it "
